@@ -58,6 +58,32 @@ theorem c16_calls_independent (H : Str → Str) (calls : List (List Str × Input
     (runMany H calls)[i]? = calls[i]?.map (fun c => run H .raw c.1 c.2) := by
   simp [runMany]
 
+/-- One exported body in policy mode obeys the settings it was exported under. -/
+theorem c16_exported (H : Str → Str) (obfuscate : Bool) (paths : List Str) (i : Input) :
+    holdsExported H obfuscate paths i (extractBody H obfuscate paths i) = true := by
+  cases i with
+  | json d =>
+    cases obfuscate with
+    | false => rfl
+    | true =>
+      simp only [extractBody, holdsExported, if_true, Bool.true_and, Bool.or_eq_true, Bool.not_eq_true']
+      cases hwf : wellFormed d with
+      | false => exact Or.inl rfl
+      | true => exact Or.inr (c16_holds H .raw paths d hwf)
+  | notJson e => cases obfuscate <;> rfl
+
+/-- A policy-mode transaction (`runner.RunTask`): one record per enabled diagnosis, each obeying the
+    obfuscation settings of that very diagnosis. -/
+theorem c16_policy (H : Str → Str) (ds : List Diag) (reqBody respBody : Input) :
+    holdsPolicy H ds reqBody respBody (runPolicy H ds reqBody respBody) = true := by
+  simp only [holdsPolicy, runPolicy, selectDiagnoses]
+  generalize (ds.filter fun d => d.endpoint && d.enabled) ++ (ds.filter fun d => !d.endpoint && d.enabled) = sel
+  induction sel with
+  | nil => rfl
+  | cons d sel ih =>
+    simp only [List.map_cons, holdsRecords, Bool.and_eq_true]
+    exact ⟨⟨c16_exported H _ _ _, c16_exported H _ _ _⟩, ih⟩
+
 /-- Keys, nesting and array lengths are preserved. -/
 theorem structure_preserved (H : Str → Str) (side : Side) (ex : List Str) (d : Json)
     (hwf : wellFormed d = true) : shape (obfuscateBody H side ex d) = shape d :=
